@@ -1013,6 +1013,65 @@ def _expand_generator_for(gen, call, skip_self, self_expr, target, loop_body) ->
 MAX_UNROLL = 8
 
 
+def _substitute_row_value(stmts: List[ast.stmt], var: str, value: ast.expr) -> bool:
+    """Replace the loads of *var* in *stmts* by *value* (a constant, a plain name / attribute chain) or, for a lambda that is
+    only ever called with simple positional arguments, each call by the lambda's body with the arguments put in.  Nothing is
+    changed (False) when *var* is re-bound in the statements, or used in a way that is not understood."""
+    names = [n for s_ in stmts for n in ast.walk(s_) if isinstance(n, ast.Name) and n.id == var]
+    if any(not isinstance(n.ctx, ast.Load) for n in names):
+        return False
+    if any(isinstance(n, (ast.FunctionDef, ast.Lambda, ast.ClassDef)) for s_ in stmts for n in ast.walk(s_)):
+        return False
+    if isinstance(value, ast.Lambda):
+        a = value.args
+        if a.vararg or a.kwarg or a.kwonlyargs or a.defaults or a.posonlyargs:
+            return False
+        params = [x.arg for x in a.args]
+        calls = [c for s_ in stmts for c in ast.walk(s_) if isinstance(c, ast.Call) and isinstance(c.func, ast.Name) and c.func.id == var]
+        if len(calls) != len(names) or any(c.keywords or len(c.args) != len(params) or not all(_simple_arg(x) for x in c.args) for c in calls):
+            return False
+        bound = {n.id for n in ast.walk(value.body) if isinstance(n, ast.Name)} - set(params)
+        stored = {n.id for s_ in stmts for n in ast.walk(s_) if isinstance(n, ast.Name) and isinstance(n.ctx, ast.Store)}
+        if bound & stored:
+            return False
+
+        class B(ast.NodeTransformer):
+            def visit_Call(self, node):
+                self.generic_visit(node)
+                if isinstance(node.func, ast.Name) and node.func.id == var:
+                    m = dict(zip(params, node.args))
+
+                    class S(ast.NodeTransformer):
+                        def visit_Name(self, n2):
+                            if n2.id in m and isinstance(n2.ctx, ast.Load):
+                                return copy.deepcopy(m[n2.id])
+                            return n2
+                    return ast.copy_location(S().visit(copy.deepcopy(value.body)), node)
+                return node
+        for i_, s_ in enumerate(stmts):
+            stmts[i_] = B().visit(s_)
+        return True
+    type_of_const = isinstance(value, ast.Call) and isinstance(value.func, ast.Name) and value.func.id == "type" and len(value.args) == 1 \
+        and isinstance(value.args[0], ast.Constant) and not value.keywords
+    if isinstance(value, ast.Constant) or type_of_const or (_plain_chain(value) and not isinstance(value, ast.Call)):
+        root = value
+        while isinstance(root, ast.Attribute):
+            root = root.value
+        stored = {n.id for s_ in stmts for n in ast.walk(s_) if isinstance(n, ast.Name) and isinstance(n.ctx, ast.Store)}
+        if isinstance(root, ast.Name) and root.id in stored:
+            return False
+
+        class R(ast.NodeTransformer):
+            def visit_Name(self, n2):
+                if n2.id == var:
+                    return ast.copy_location(copy.deepcopy(value), n2)
+                return n2
+        for i_, s_ in enumerate(stmts):
+            stmts[i_] = R().visit(s_)
+        return True
+    return False
+
+
 def _unroll_table_loops(body: List[ast.stmt], table_of) -> bool:
     """`for a, b in TABLE: BODY` with TABLE a constant tuple / list display of at most MAX_UNROLL rows (a module-level constant
     or a local bound once to a display): replaced by one copy of BODY per row, each preceded by `a, b = row`.  `continue`
@@ -1056,6 +1115,16 @@ def _unroll_table_loops(body: List[ast.stmt], table_of) -> bool:
                         else:
                             assigns = [assign]
                         copy_body = [copy.deepcopy(b) for b in st.body]
+                        # a row element that is a constant, a plain name / attribute chain or a lambda only ever called is put in
+                        # place of the loop variable (the copy then reads like the hand-written branch)
+                        if tgt_n is not None or isinstance(st.target, ast.Name):
+                            pairs = list(zip(st.target.elts, r.elts)) if tgt_n is not None else [(st.target, r)]
+                            kept = []
+                            for a_, (t_, v_) in zip(assigns, pairs):
+                                if isinstance(t_, ast.Name) and _substitute_row_value(copy_body, t_.id, v_):
+                                    continue
+                                kept.append(a_)
+                            assigns = kept
                         if uses_continue:
                             class _C(ast.NodeTransformer):
                                 def visit_For(self, n):
